@@ -1,6 +1,7 @@
 """C04 — ada::url and ada::url_aggregator are observationally identical."""
 import lib
 import urlcorr
+import reccorr
 
 AGG_ONLY = {"validate", "agg", "pathlen"}
 
@@ -15,7 +16,7 @@ def check(run):
     run.oblige("build:harness", binp is not None, err or "")
     if binp is None:
         return
-    n = 8000 if run.tier == "quick" else 200000
+    n = 24000 if run.tier == "quick" else 200000
     cases = urlcorr.wpt_cases() + urlcorr.gen_cases(run.rng, n, hist_frac=0.7)
     res = urlcorr.explore(run, binp, cases, with_spec=False)
     if res is None:
@@ -37,6 +38,18 @@ def check(run):
                               f"url={y.get(k)}: {urlcorr.describe(r['case'])}",
                               lines=[r["seqagg_line"], r["sequrl_line"]], detail={"step": i, "keys": diff})
                 break
+    # the Lean model of ada::url (Props/C04.lean) evaluated on the fields of every real ada::url state
+    states = []
+    for r in res:
+        st, steps = r["sequrl"]
+        if st != "ok":
+            continue
+        for i, s in enumerate(steps):
+            if "href" in s and "flags" in s:
+                states.append((s, r["sequrl_line"], f"{urlcorr.describe(r['case'])} after step {i}"))
+    bad = reccorr.check_states(run, states)
+    if bad is not None:
+        run.oblige("corr:Model.UrlRec get_href/get_href_size/get_components = ada::url on every state", not bad, str(bad[:2])[:900])
     for r in res[-2:]:
         run.sample(urlcorr.describe(r["case"]))
     run.oblige("L3:lockstep(url_aggregator,url)", True)
